@@ -123,8 +123,18 @@ func genCfg(rnd *tr.Rand, focus string) *caseCfg {
 		switch c.scenario {
 		case "read-after-close":
 			c.et = true
-		case "write-after-close", "shutdown-from-onclose":
+		case "write-after-close", "shutdown-from-onclose", "shutdown-from-onclose-writev":
 			c.inject = []inject{{name: "wr", index: 0, kind: "epipe", cid: -1}}
+		case "shutdown-from-onclose-flush":
+			// data is buffered behind EAGAIN; the flush from the poller's write event fails hard; OnClose returns Shutdown
+			c.sndbuf = 4096
+			c.inject = []inject{{name: "wr", index: 3, kind: "epipe", cid: -1}}
+		case "peek-from-ring":
+			// Peek served entirely from the leftover ring
+		case "open-arm-fails":
+			// the OnOpen reply does not fit the socket and arming write interest fails: the connection is closed with an error
+			c.sndbuf = 4096
+			c.inject = []inject{{name: "epctl-mod", index: 0, kind: "enomem", cid: -1}}
 		case "onopen-reply-order":
 			c.sndbuf, c.pOpenReply = 4096, 100
 		case "lt-partial-flush":
@@ -206,7 +216,7 @@ func genCfg(rnd *tr.Rand, focus string) *caseCfg {
 			n = 2
 		}
 		for i := 0; i < n; i++ {
-			name := rnd.PickS([]string{"read", "read", "wr", "wr", "close", "epctl-add", "epctl-mod", "epctl-del", "accept", "accept0", "wait"})
+			name := rnd.PickS([]string{"read", "read", "wr", "wr", "close", "epctl-add", "epctl-mod", "epctl-del", "accept", "accept0", "wait", "evmask", "evmask"})
 			var kinds []string
 			switch name {
 			case "read", "wr":
@@ -219,15 +229,21 @@ func genCfg(rnd *tr.Rand, focus string) *caseCfg {
 				// connection that loop still owns must get its OnClose
 				kinds = []string{"eintr", "econnaborted", "econnreset", "emfile"}
 			case "accept0":
-				kinds = []string{"eintr", "econnaborted", "econnreset"}
+				kinds = []string{"eintr", "econnaborted", "econnreset", "emfile"}
 			case "wait":
 				kinds = []string{"eintr"}
+			case "evmask":
+				kinds = []string{"hup-only", "rdhup-no-in"}
 			case "close":
 				kinds = []string{"eintr", "ebadf"}
 			default:
 				kinds = []string{"enomem", "ebadf", "einval"}
 			}
-			c.inject = append(c.inject, inject{name: name, index: rnd.Intn(7), kind: rnd.PickS(kinds), cid: -1})
+			index := rnd.Intn(7)
+			if name == "evmask" {
+				index = rnd.Intn(2) // a case has only a few events that carry a hang-up
+			}
+			c.inject = append(c.inject, inject{name: name, index: index, kind: rnd.PickS(kinds), cid: -1})
 		}
 		if (!c.reuseport || c.proto == "unix") && rnd.Chance(35) {
 			// main-reactor mode: a transient accept4 failure on the acceptor thread (edge-triggered listener)
@@ -330,6 +346,11 @@ func runCase(w *tr.Writer, seed uint64, idx int, focus string) {
 	if focus == "udp" {
 		cfg.proto, cfg.udp, cfg.reuseport = "udp", true, true
 		cfg.udpFam = rnd.PickS([]string{"v4", "v4", "v4", "dual", "dual", "v6"})
+		if rnd.Chance(25) {
+			// one recvfrom fails (a pending socket error): only that datagram is affected, the listener goes on
+			cfg.inject = append(cfg.inject, inject{name: "recvfrom", index: rnd.Intn(6), kind: rnd.PickS([]string{"econnreset", "enomem", "eintr"}), cid: -1})
+		}
+		cfg.pShutdown = rnd.Pick([]int{0, 0, 0, 8})
 		if cfg.udpFam != "v4" && !haveIPv6() {
 			cfg.udpFam = "v4"
 		}
@@ -660,6 +681,16 @@ func runCase(w *tr.Writer, seed uint64, idx int, focus string) {
 				quiet()
 			}
 		}
+		if cfg.scenario == "peek-from-ring" && len(peers) == 1 {
+			for _, sz := range []int{50, 7} {
+				seq := rec.seq()
+				data := rnd.Bytes(sz)
+				n, _ := peers[0].conn.Write(data)
+				peers[0].sent = append(peers[0].sent, data[:n]...)
+				woken(seq, 500*time.Millisecond)
+				quiet()
+			}
+		}
 		if cfg.scenario == "stale-read0" && len(peers) == 1 {
 			pa := peers[0]
 			seq := rec.seq()
@@ -782,6 +813,12 @@ func runCase(w *tr.Writer, seed uint64, idx int, focus string) {
 				ci.c.AsyncWritev([][]byte{va[:4], va[4:]}, h.acb("writev", ci, true, va))
 				h.op(ci, tr.L("async", "write", tr.I(ci.mcid), tr.X(vb), "1"))
 				ci.c.AsyncWrite(vb, h.acb("write", ci, true, vb))
+				// low-priority requests behind the backlog are shunted to the second queue; more of them than one
+				// batch takes (MaxAsyncTasksAtOneTime), so the loop has to wake itself up for the rest
+				for i := 0; i < 300; i++ {
+					h.op(ci, tr.L("async", "wake", tr.I(ci.mcid), "1"))
+					ci.c.Wake(h.acb("wake", ci, true, nil))
+				}
 				close(h.release)
 				quiet()
 				for round := 0; round < 50; round++ {
